@@ -37,22 +37,35 @@ Transformations (only `kern` is transformed; its callees keep their interfaces):
   rvn   resolve_vector_notation(resolve_implicit_rhs_ranges +/-), and with insert_comments +
         substitute_derived_type_bounds
   rvd   resolve_vector_dimension(Dimension(index=i, lower=1, upper=n, size=n), derive_qualified_ranges +/-,
-        resolve_implicit_rhs_ranges +/-).  Not run with ctx=loop_same_range (a vector statement over the
-        horizontal *inside* a horizontal loop is outside its single-column use).
-  add / rem(calls_only +/-)   add_/remove_explicit_array_dimensions
-  nri   normalize_range_indexing;   nasa  normalize_array_shape_and_access
+        resolve_implicit_rhs_ranges +/-).  Not run with ctx=loop_same_range or live_index: the dimension's index
+        variable is reserved for the horizontal loop in single-column code, so a vector statement *inside* a loop
+        over it or another live use of it is not meaningful input for this entry point.
+  add / rem(calls_only +/-) / add+rem   add_/remove_explicit_array_dimensions
+  nri   normalize_range_indexing;   nasa  normalize_array_shape_and_access (not with lbound_use on an array whose
+        lower bound is not 1: re-basing the array changes LBOUND by design)
   flatten_arrays: as used by the repository itself (tests, FortranCTransformation): after
         normalize_array_shape_and_access (shapes must not be ranges), order='F', and order='C' after
-        invert_array_indices; both directly (programs without partial 2-D sections, which flat storage cannot
-        express) and after resolve_vector_notation (all programs).  start_index=1 only: start_index=0 assumes
-        0-based subscripts, which only exist after shift_to_zero_indexing for the C backend (C35), as do
-        shift_to_zero_indexing / invert_array_indices on their own.
+        invert_array_indices; both directly (`nasa+flatten`: only programs without partial sections of rank-2 arrays,
+        which flat storage cannot express) and after resolve_vector_notation (`rvn+nasa+flatten`: all programs except
+        those passing rank-2 sections to calls).  start_index=1 only: start_index=0 assumes 0-based subscripts, which
+        only exist after shift_to_zero_indexing for the C backend (C35), as do shift_to_zero_indexing /
+        invert_array_indices on their own.
 Dummy arrays are explicit-shape and the driver passes first elements (sequence association), so re-declaring
 a dummy with lower bound 1 or as rank 1 does not change the storage the kernel sees.
 
 Weaker readings taken: a bare `assert` in ResolveVectorNotationTransformer.visit_MaskedStatement (multi-clause
 WHERE, marked TODO "currently limited to") counts as a refusal, like NotImplementedError; a *warning* followed
 by wrong code is a violation.
+
+Signatures: `<verdict> block=<switch=value> xform=<family>`; a failing single-switch case explains the multi-switch
+cases that contain the switch (same variant, same verdict); a pipeline (`rvn+nasa+flatten`, `nasa+flatten`,
+`add+rem`) failing on a program on which one of its stages alone already fails is that stage's finding.
+
+Cost: all variants of one program are first compiled in ONE gfortran run (modules renamed vmod_<k>, one driver
+selecting the variant by command argument) and executed one by one; a variant is accepted on this fast path only if
+it exits 0 and prints exactly the original's output.  Every other variant is re-judged by the unmodified
+vf.xform.run_case (separate build, same flags), so all non-ok verdicts - and replay - come from the standard path.
+Flags: -O0 -fcheck=bounds -finit-integer=-9999 (an index the rewrite forgot to set aborts deterministically).
 """
 import re
 
